@@ -27,9 +27,10 @@ SCENARIOS = [
     ("custom,checkpoint", "pause,pause_defer", {}),
     ("custom,checkpoint,pause", "", {}),
     ("custom,checkpoint,pause_defer", "", {}),
-    ("custom,checkpoint", "pause,abort", {} if THOROUGH else {"max_requests": 2}),
-    ("custom,checkpoint", "pause,stop", {} if THOROUGH else {"max_requests": 2}),
-    ("custom,checkpoint", "pause,halt", {} if THOROUGH else {"max_requests": 2}),
+    # (pairs of request kinds: the statement's scope is two requests; the thorough tier goes one beyond, single kinds are unbounded)
+    ("custom,checkpoint", "pause,abort", {"max_requests": 3 if THOROUGH else 2}),
+    ("custom,checkpoint", "pause,stop", {"max_requests": 3 if THOROUGH else 2}),
+    ("custom,checkpoint", "pause,halt", {"max_requests": 3 if THOROUGH else 2}),
     ("custom_async,checkpoint", "pause", {}),
     ("custom,clear_checkpoint,checkpoint", "pause", {}),
     ("custom,clear_checkpoint,checkpoint", "pause_defer", {}),
@@ -47,11 +48,11 @@ SCENARIOS = [
 ]
 if THOROUGH:
     SCENARIOS += [
-        ("custom,checkpoint", "pause,suspend", {}),
-        ("custom,checkpoint", "pause_defer,abort", {}),
-        ("custom,checkpoint", "pause_defer,stop", {}),
-        ("open_run,close_run,custom,checkpoint", "pause,abort", {}),
-        ("custom_async,checkpoint", "pause,halt", {}),
+        ("custom,checkpoint", "pause,suspend", {"max_requests": 3}),
+        ("custom,checkpoint", "pause_defer,abort", {"max_requests": 3}),
+        ("custom,checkpoint", "pause_defer,stop", {"max_requests": 3}),
+        ("open_run,close_run,custom,checkpoint", "pause,abort", {"max_requests": 3}),
+        ("custom_async,checkpoint", "pause,halt", {"max_requests": 3}),
     ]
 
 E1 = f"{REQ}.__call__#raises[RunEngineInterrupted: paused and resumable, or terminated (abort / stop / halt / failed pause): idle with every run closed]"
